@@ -336,6 +336,9 @@ func init() {
 		"github.com/tinylib/msgp/msgp.UnsafeString": func(fr *frame, args []value) value {
 			return fr.i.mkStr(args[0].([]value))
 		},
+		"github.com/mailru/easyjson/jlexer.bytesToStr": func(fr *frame, args []value) value {
+			return fr.i.mkStr(args[0].([]value))
+		},
 		"github.com/tinylib/msgp/msgp.UnsafeBytes": func(fr *frame, args []value) value {
 			return strBytes(args[0])
 		},
